@@ -2,7 +2,9 @@
    refresh protocol of Krige.set_condition (krige/base.py).  Values are abstract identifiers (`Nat`);
    what matters is *under which settings* a stored kriging result was computed, *where* it is stored
    (`raw_krige` lives in the CondSRF object, `krige_var` in the Krige object, each under a field name) and
-   *which kriging run* it stems from (stored arrays carry an object identity).  Core Lean only. -/
+   *which kriging run* it stems from (stored arrays carry an object identity).  `XState` adds the names of all other
+   stored fields (`field_names` of both objects) so that deletions / position changes can be checked to remove
+   everything.  Core Lean only. -/
 import GSV.Proto
 open Lean GSV GSV.Proto
 namespace GSV.Model.Cond
@@ -172,6 +174,93 @@ def runWith (rule : Rule) (s : State) : List Op → State × List CallOut
 
 def run (s : State) (ops : List Op) : State × List CallOut := runWith .bothRef s ops
 
+/-! ### the names of ALL stored fields (`field_names` of both objects)
+
+  Besides `raw_krige` (CondSRF slot 2) and `krige_var` (Krige slot 1), whose contents feed later results and are tracked in
+  `State`, a call stores the conditioned field (CondSRF slot 0, `field`), the unconditional field (CondSRF slot 1,
+  `raw_field`) and the kriging field (Krige slot 0, `field`), each under a default or custom name.  Their contents are
+  never read back, but `delete_fields()` / a position change must remove them together with the others. -/
+
+abbrev NameSet := Nat → Bool
+def NameSet.empty : NameSet := fun _ => false
+def NameSet.add (m : NameSet) (n : Nat) : NameSet := fun k => if k = n then true else m k
+
+structure Names where
+  fld : NameSet      -- conditioned fields stored in the CondSRF object (slot 0)
+  rawf : NameSet     -- unconditional fields stored in the CondSRF object (slot 1)
+  kfld : NameSet     -- kriging fields stored in the Krige object (slot 0)
+deriving Inhabited
+
+def Names.empty : Names := { fld := NameSet.empty, rawf := NameSet.empty, kfld := NameSet.empty }
+
+/-- names and save flags of the slots an `Op` does not mention: `f*` / `rf*` = CondSRF slots 0 / 1 (`store=` of a CondSRF
+    call), `kf*` = Krige slot 0 (`krige_store=` of a CondSRF call, `store=` of a direct kriging call) -/
+structure Aux where
+  fName : Nat := 0
+  fSave : Bool := true
+  rfName : Nat := 0
+  rfSave : Bool := true
+  kfName : Nat := 0
+  kfSave : Bool := true
+deriving DecidableEq, Repr, Inhabited
+
+/-- the cache state together with the names of all other stored fields -/
+structure XState where
+  core : State
+  names : Names
+deriving Inhabited
+
+def xinit (cond model mean : Nat) : XState := { core := init cond model mean, names := Names.empty }
+
+def saveName (m : NameSet) (save : Bool) (n : Nat) : NameSet := if save then m.add n else m
+
+/-- bookkeeping of the other names under one operation (`s` = cache state BEFORE the operation) -/
+def namesStep (s : State) (n : Names) (a : Aux) : Op → Names
+  | .call p? _ _ _ _ =>
+    match targetPos s p? with
+    | none => n                                        -- the call raises before anything is stored
+    | some p =>
+      let n1 := if s.pos = some p then n else Names.empty   -- `CondSRF.set_pos`: new positions delete everything
+      { fld := saveName n1.fld a.fSave a.fName, rawf := saveName n1.rawf a.rfSave a.rfName,
+        kfld := saveName n1.kfld a.kfSave a.kfName }
+  | .krigeCall p? _ =>
+    match targetPos s p? with
+    | none => n
+    | some p =>
+      let k1 := if s.pos = some p then n.kfld else NameSet.empty   -- `Field.set_pos` of the Krige object
+      { n with kfld := saveName k1 a.kfSave a.kfName }
+  | .setPos p => if s.pos = some p then n else Names.empty
+  | .krigeSetPos p => if s.pos = some p then n else { n with kfld := NameSet.empty }
+  | .setCondition _ => { n with kfld := NameSet.empty }
+  | .modelChange _ => n
+  | .setMean _ => n
+  | .deleteFields => { n with fld := NameSet.empty, rawf := NameSet.empty }
+  | .krigeDeleteFields => { n with kfld := NameSet.empty }
+
+def xstepWith (rule : Rule) (x : XState) (op : Op) (a : Aux) : XState × CallOut :=
+  ({ core := (stepWith rule x.core op).1, names := namesStep x.core x.names a op }, (stepWith rule x.core op).2)
+
+def xstep (x : XState) (op : Op) (a : Aux) : XState × CallOut := xstepWith .bothRef x op a
+
+def xrun (x : XState) : List (Op × Aux) → XState
+  | [] => x
+  | (op, a) :: ops => xrun (xstep x op a).1 ops
+
+/-- is a field stored in slot `slot` of the CondSRF object under name `n` (`field_names` of the CondSRF object) -/
+def crfStored (x : XState) (slot n : Nat) : Bool :=
+  match slot with
+  | 0 => x.names.fld n
+  | 1 => x.names.rawf n
+  | 2 => (x.core.raw n).isSome
+  | _ => false
+
+/-- is a field stored in slot `slot` of the Krige object under name `n` (`field_names` of the Krige object) -/
+def krigeStored (x : XState) (slot n : Nat) : Bool :=
+  match slot with
+  | 0 => x.names.kfld n
+  | 1 => (x.core.var n).isSome
+  | _ => false
+
 /-! ### the conditioning formula (`get_scaling` and the final sum) -/
 section formula
 open GSV.Transc
@@ -223,6 +312,16 @@ def parseOp (j : Json) : Except String Op := do
   | "krige_delete" => return .krigeDeleteFields
   | _ => throw s!"unknown cond op {k}"
 
+def parseAux (j : Json) : Aux :=
+  { fName := (condOptNat j "fn").getD 0, fSave := condOptBool j "fs" true,
+    rfName := (condOptNat j "rfn").getD 0, rfSave := condOptBool j "rfs" true,
+    kfName := (condOptNat j "kfn").getD 0, kfSave := condOptBool j "kfs" true }
+
+/-- the stored fields `[slot, name]` with name ids `< 4` of the first `slots` slots -/
+def storedJson (stored : Nat → Nat → Bool) (slots : Nat) : Json :=
+  Json.arr (((List.range slots).flatMap fun sl => ((List.range 4).filter fun n => stored sl n).map fun n =>
+    Json.arr #[Json.num (JsonNumber.fromNat sl), Json.num (JsonNumber.fromNat n)]).toArray)
+
 def parseRule (j : Json) : Rule :=
   match j.getObjVal? "rule" with
   | .ok (Json.str "present") => .present
@@ -238,12 +337,15 @@ def ops (op : String) (j : Json) : Option (Except String Json) :=
       let c ← getNat j "cond"; let m ← getNat j "model"; let mu ← getNat j "mean"
       let rule := parseRule j
       let arr ← (← j.getObjVal? "ops").getArr?
-      let opl ← arr.toList.mapM parseOp
+      let opl ← arr.toList.mapM fun o => do return (← parseOp o, parseAux o)
       -- replay step by step so that the fresh token of the state *at each call* is reported
-      let mut s := init c m mu
+      let mut x := xinit c m mu
       let mut out : Array Json := #[]
-      for o in opl do
-        let (s', r) := stepWith rule s o
+      let mut names : Array Json := #[]
+      for (o, a) in opl do
+        let s := x.core
+        let (x', r) := xstepWith rule x o a
+        let s' := x'.core
         match o, r with
         | .call .., some (tr, tv, reused) =>
           let p := s'.pos.getD 0
@@ -253,8 +355,9 @@ def ops (op : String) (j : Json) : Option (Except String Json) :=
             ("same_run", Json.bool (decide (tr = tv))), ("synced_before", Json.bool (syncedUpTo 4 s))])
         | .call .., none => out := out.push (Json.str "ValueError")
         | _, _ => pure ()
-        s := s'
-      return Json.arr out)
+        names := names.push (Json.mkObj [("crf", storedJson (crfStored x') 3), ("krige", storedJson (krigeStored x') 2)])
+        x := x'
+      return Json.mkObj [("calls", Json.arr out), ("names", Json.arr names)])
   | "cond_value" => some (do
       let kr ← getFloats j "krige"; let kv ← getFloats j "kvar"; let raw ← getFloats j "raw"; let nz ← getFloats j "noise"
       let var ← getFloat j "var"; let nug ← getFloat j "nugget"
